@@ -14,6 +14,13 @@ DECLS = r'''
 CALLER = [("lim", "i32", 5), ("word", "String", "hello"), ("pat", "&str", "^h"), ("key", "String", "b")]
 CALLER_LETS = "let lim: i32 = 5; let word: String = \"hello\".to_string(); let pat: &str = \"^h\"; let key: String = \"b\".to_string();"
 WORDS = ["hello", "help", "world", "a b", "x", "", "hi there", "Hello"]
+# values whose Debug form differs from their Display form (quotes, backslashes, control characters) or is not ASCII;
+# they appear as VALUES only: string-literal patterns with escapes are outside the model's literal parser
+TRICKY = ['say "hi"', 'C:\\dir', 'a\nb', 'tab\there', 'é日', 'q"', '\\']
+
+
+def rust_str(w):
+    return '"%s"' % w.replace("\\", "\\\\").replace('"', '\\"').replace("\n", "\\n").replace("\t", "\\t")
 KEYS = ["a", "b", "c"]
 
 
@@ -107,8 +114,8 @@ def gen_value(rng, t, depth=0):
         z = rng.randint(-3, 12)
         return (str(z) if z >= 0 else "(%d)" % z, "(int %d)" % z, z)
     if isinstance(t, Str):
-        w = rng.choice(WORDS)
-        return ("\"%s\".to_string()" % w, "(str %s)" % hx(w), w)
+        w = rng.choice(TRICKY) if rng.random() < 0.2 else rng.choice(WORDS)
+        return ("%s.to_string()" % rust_str(w), "(str %s)" % hx(w), w)
     if isinstance(t, Bool):
         b = rng.random() < 0.5
         return ("true" if b else "false", "(bool %d)" % b, b)
@@ -233,6 +240,11 @@ class Gen:
         if isinstance(t, Str):
             w = pv
             f = rng.choice(["lit", "eq", "ne", "regex", "regex_end", "like", "eqvar"])
+            if w in TRICKY:
+                # only literals without escapes are written: `lit`/`eq` can only miss, `ne` can only hit
+                f = rng.choice(["lit", "lit", "eq", "ne", "eqvar"])
+                hit = f == "ne"
+                self.note("str-tricky:" + f)
             self.note("str:" + f)
             other = rng.choice([x for x in WORDS if x != w])
             if f == "lit":
